@@ -261,6 +261,40 @@ def body(chk, db, cfgname):
                     r4.ok(site, d.loc(j), "member-wise copyable but never copied in the library (objects of this class are held by reference); %s freed once" % short_f, cfgname)
             else:
                 r4.ok(site, d.loc(j), "not copy-constructible", cfgname)
+    # ------------------------------------------------------------------ R5
+    # erase() inside a loop whose header advances the same iterator: after `it = c.erase(it)` the header's ++it skips the element
+    # that followed the erased one (and increments end() when the last element was erased); after a plain `c.erase(it)` the header
+    # increments an invalidated iterator.
+    r5 = chk.rule("C17-R5", "no container element is erased through the iterator that the enclosing loop's header advances (skipped elements, increment of end() / of an invalidated iterator)", "F2 typestate", 1)
+    nloops = 0
+    for f in fns:
+        ctx = None
+        for j, n in f.walk(f.body):
+            if n["k"] != "for" or n.get("inc") is None:
+                continue
+            ctx = ctx or Ctx(f, db)
+            shp = loop_shape(f, ctx, j)
+            if shp["var"] is None or not (isinstance(shp.get("start"), tuple) and shp["start"][0] == "mcall" and shp["start"][1].split("::")[-1] in ("begin", "cbegin", "rbegin")):
+                continue
+            nloops += 1
+            v = shp["var"]
+            for jj, nn in f.walk(n["body"]):
+                if nn["k"] == "call" and nn.get("ck") == "method" and strip_targs(nn.get("cname") or "").split("::")[-1] == "erase" and nn.get("args"):
+                    ak = ctx.key(nn["args"][0], inline=False)
+                    while isinstance(ak, tuple) and ak[0] in ("cast", "ctor") and len(ak) == 3:
+                        ak = ak[2]
+                    if ak[:2] != v[:2]:
+                        continue
+                    same_container = any(isinstance(shp.get(x_), tuple) and key_contains(shp[x_], lambda y: y == ctx.key(nn["obj"])) for x_ in ("start", "bound"))
+                    if not same_container:
+                        continue
+                    site = "%s:erase-in-loop@%s" % (f.sig, f.loc(jj).rsplit(":", 1)[-1])
+                    par = f.nodes[f.parent_map().get(jj)] if f.parent_map().get(jj) is not None else {}
+                    reassigned = (par.get("k") == "bin" and par.get("op") == "=") or (par.get("k") == "call" and par.get("op") == "=")
+                    r5.bad(site, f.loc(jj), ("the iterator is re-assigned from erase() and then advanced again by the loop header (`%s`): the element after every erased one is never visited, and erasing the last element increments end()" if reassigned else
+                                             "the element is erased through the loop iterator, which the loop header (`%s`) then increments although it was invalidated") % f.s(n["inc"])[:30], cfgname)
+    r5.ok("library:iterator-loops", "/repo/src", "%d iterator loops with the advance in the header examined, none erases through its own iterator" % nloops, cfgname) if not any(i["status"] == "violation" and i["config"] == cfgname for i in r5.instances) else None
+
     chk.undecided.append("arithmetic overflow (1<<IndexSize), use before prepare/compute, lifetime of leaked raw pointers; UB classes outside the anchored mechanisms")
     chk.note("assumed (not checked): FieldOperator::getPartFrom*Index look-ups rely on the bimap invariant established by prepare (C07-R5)")
 
